@@ -44,7 +44,16 @@ SidecarParts == {[section |-> "sidecar", part |-> "json"]}
 SidecarReplacements == {"replace:empty", "replace:null", "replace:[]", "replace:{}", "replace:[null]", "replace:[{}]",
                         "replace:0", "replace:string", "replace:[[]]", "replace:nested"}
 
-FaultClasses == {[target |-> "shard", section |-> fp.section, part |-> fp.part, pos |-> p, mut |-> m] :
+\* items of the compound / lazy sections (one posting list per trigram, one content per document, ...):
+\* the same damage at the first resp. last byte of EVERY item (the driver expands "each-*" with the
+\* section's index); e.g. a posting list whose last varint has its continuation bit set
+ItemPositions == {"each-first", "each-last"}
+ItemMutations == {"flip7", "ff", "zero"}
+ItemClasses == {[target |-> "shard", section |-> ShardLayout[k].tag, part |-> "items", pos |-> p, mut |-> m] :
+                   k \in {k \in 1..Len(ShardLayout) : ShardLayout[k].kind # "simple"}, p \in ItemPositions, m \in ItemMutations}
+
+FaultClasses == ItemClasses \cup
+                {[target |-> "shard", section |-> fp.section, part |-> fp.part, pos |-> p, mut |-> m] :
                     fp \in FileParts, p \in Positions, m \in Mutations}
                 \cup {[target |-> "sidecar", section |-> fp.section, part |-> fp.part, pos |-> p, mut |-> m] :
                     fp \in SidecarParts, p \in Positions, m \in Mutations}
